@@ -303,18 +303,13 @@ func (h H) candidateGates(rule string) {
 	// isVoter(id) == exists && Voter
 	iv := h.fn("raft:(Config).isVoter")
 	sums, uns, ok := h.simAll().TrueSummary(iv)
-	good := ok && len(sums) > 0
-	for _, f := range sums {
-		if !core.Entails(f, core.Rel{A: "Config.Nodes[$1]#1", Op: "==", B: "true"}, uns) && !entailsAny(f, uns, "ok") {
-			good = false
-		}
+	if !ok || len(sums) == 0 {
+		h.C.Undecided(rule+" isVoter-summary", "(Config).isVoter", h.fpos(iv), "cannot summarise isVoter")
 	}
-	_ = good
-	ifi := h.P.Info(iv)
-	for _, r := range core.Returns(iv) {
-		e := ifi.Sym(r.Results[0]).String()
-		h.C.Check(rule+" isVoter-shape", "(Config).isVoter", e == "phi(false, Config.Nodes[$1].Voter)", h.pos(r), "isVoter must be `exists && Voter`; found "+e)
-		h.gateResultPhi(rule+" isVoter-exists", iv, r)
+	for i, f := range sums {
+		c1 := core.Entails(f, core.Rel{A: "Config.Nodes[$1]#1", Op: "==", B: "true"}, uns)
+		c2 := core.Entails(f, core.Rel{A: "Config.Nodes[$1]#0.Voter", Op: "==", B: "true"}, uns)
+		h.C.Check(rule+" isVoter-summary", fmt.Sprintf("(Config).isVoter true-path#%d", i+1), c1 && c2, h.fpos(iv), fmt.Sprintf("isVoter(id) may be true without: node exists (%v), node is voter (%v)", c1, c2))
 	}
 	// startElection re-checks
 	se := h.fn("raft:(*candidate).startElection")
@@ -324,32 +319,6 @@ func (h H) candidateGates(rule string) {
 	}
 }
 
-func entailsAny(f []core.Rel, uns map[string]bool, sub string) bool {
-	for _, r := range f {
-		if strings.Contains(r.A, sub) && r.Op == "==" && r.B == "true" {
-			return true
-		}
-	}
-	return false
-}
-
-// gateResultPhi: for `return a && b` lowered to phi(false, b): the edge carrying b is behind `ok(...)`.
-func (h H) gateResultPhi(rule string, fn *ssa.Function, r *ssa.Return) {
-	fi := h.P.Info(fn)
-	phi, ok := r.Results[0].(*ssa.Phi)
-	if !ok {
-		return
-	}
-	for i, e := range phi.Edges {
-		if _, isConst := e.(*ssa.Const); isConst {
-			continue
-		}
-		pred := phi.Block().Preds[i]
-		last := pred.Instrs[len(pred.Instrs)-1]
-		res := fi.MustCross(last, func(a core.Atom) bool { return a.Op == "true" && strings.HasPrefix(a.L, "ok(Config.Nodes[") })
-		h.C.Check(rule, h.name(fn)+" non-constant result", res.OK, h.pos(r), "the Voter flag is returned without the node existing in the configuration")
-	}
-}
 
 // resetTimerOnlyOnGrant (C17.2): replyRPC reports resetTimer for a vote request only when result == success.
 func (h H) resetTimerOnlyOnGrant(rule string) {
